@@ -29,8 +29,8 @@ def exclC10Prefixed : List (String × String) := [
   ("planck", "G"), ("planck", "statC"), ("planck", "statA"), ("planck", "statV"), ("planck", "statohm")]
 
 /-- prefixed spellings inside an excluded class that are nevertheless closed (the system declares
-    exactly that prefixed unit): micro-gauss in `galactic`, in its three spellings -/
-def okC10Prefixed : List (String × String) := [
-  ("galactic", "μG"), ("galactic", "µG"), ("galactic", "uG")]
+    exactly that prefixed unit): micro-gauss in `galactic` (the spellings `uG`, `µG` are mapped to
+    the symbol `μG` by the parser) -/
+def okC10Prefixed : List (String × String) := [("galactic", "μG")]
 
 end Unyt.Ref
